@@ -32,7 +32,8 @@ REQUIRED_CLASSES = ('buffering:default', 'buffering:line', 'buffering:flush-per-
                     'crash:between-records', 'crash:mid-record', 'prefix:shipped', 'prefix:generated',
                     'accepted:complete-file', 'accepted:inside-box-line', 'api:extrapolate_system', 'api:write_gro',
                     'api:write_comparative_gro', 'prefix:large-file', 'names:first-records-numeric',
-                    'abandoned:del', 'abandoned:exception-unwinds', 'abandoned:process-ends')
+                    'abandoned:del', 'abandoned:exception-unwinds', 'abandoned:process-ends',
+                    'output-path:holds-the-file-of-an-earlier-run')
 RULE = ('fault space: (writer run x buffering model x writer statement boundary) -> distinct on-disk images; every byte '
         'prefix of each in-progress stream; every byte prefix of complete files. A case is one (image or prefix) fed to '
         'the reader. Non-trivial: the image is non-empty and is not the complete file. distinct = distinct images per '
@@ -189,6 +190,20 @@ def run_writer(ctx, case):
     scratch = os.path.join(_tmp['dir'], f'r{os.getpid()}.gro')
     if os.path.exists(path):
         os.remove(path)
+    earlier = None
+    if i % 3 == 1:
+        # the output path already holds the complete file of an earlier run of the same job (same records, other
+        # coordinates): what a writer that dies leaves there is judged like any other partial output - unless it is still,
+        # byte for byte, the earlier file (the writer had not touched the path yet)
+        import copy
+        prev = copy.deepcopy(spec)
+        prev['schedule'], prev['attr_history'] = None, None
+        for rec_ in prev['records']:
+            rec_['xyz'] = [round(-0.5 * v, spec['dec']) for v in rec_['xyz']]
+        grospec.write_spec(prev, path)
+        with open(path, 'rb') as fh:
+            earlier = fh.read()
+        ctx.hit('output-path:holds-the-file-of-an-earlier-run')
     rec = faults.CrashRecorder(path)
     with bus.patched(P, 'open', faults.make_open(model)):
         use_with = (i % 3 == 0)
@@ -219,6 +234,9 @@ def run_writer(ctx, case):
     for idx, image in enumerate(rec.images):
         if image is None:
             continue
+        if earlier is not None and image == earlier:
+            ctx.count('images_still_the_earlier_file')
+            continue
         where = {'writer_run': i, 'buffering': model, 'image_index': idx, 'n_records': nrec,
                  'first_seen_at': next((f'{l}:{ln}' for l, ln, k in rec.events if k == idx), None)}
         judge_image(ctx, image, complete, complete_recs, scratch, where, 'crash_image_read')
@@ -234,8 +252,8 @@ def run_writer(ctx, case):
     ctx.count('distinct_crash_images', len(rec.images))
     # every byte prefix of the in-progress stream (what is there just before close() starts)
     if model == 'flush-per-write':
-        stream = max((im for idx, im in enumerate(rec.images) if im is not None and idx not in seen_in_close
-                      or im is not None and not complete.startswith(im)), key=len, default=b'')
+        stream = max((im for idx, im in enumerate(rec.images) if im is not None and im != earlier and
+                      (idx not in seen_in_close or not complete.startswith(im))), key=len, default=b'')
         for k in range(len(stream) + 1):
             judge_image(ctx, stream[:k], complete, complete_recs, scratch,
                         {'writer_run': i, 'inprogress_prefix': k}, 'inprogress_prefix_read')
